@@ -117,6 +117,43 @@ theorem C03_splitter_terminates (ts : List Tok) :
    fun b rest h => (blocks_next_some ts b rest h).choose_spec.choose_spec.2.2.2.2,
    blocks_skip_unfold ts, blocks_more_unfold ts⟩
 
+/-- the metadata-only scanner (`next_metadata_block` iterated): its fuel never runs out either, and
+    with the fuel `pullMetaEvents` uses it obeys the fuel-free recursion (seek the next `>>` at a
+    line start, take the line, continue after its newline) -/
+theorem C03_meta_scanner_terminates (ts : List Tok) (last : TK) :
+    (∀ f, ts.length ≤ f → metaBlocks f last ts = metaBlocks (ts.length + 1) last ts) ∧
+    (metaBlocks (ts.length + 1) last ts = match seekMeta last ts with
+      | none => []
+      | some ts' => lineBody ts' :: metaBlocks ((afterLine ts').length + 1) .newline (afterLine ts')) := by
+  refine ⟨fun f h => blocks_meta_fuel f (ts.length + 1) last ts h (by omega), ?_⟩
+  rw [blocks_meta_succ]
+  cases hs : seekMeta last ts with
+  | none => rfl
+  | some ts' =>
+    obtain ⟨t, r, e, _, hl⟩ := blocks_seek_some last ts ts' hs
+    have := blocks_afterLine_length t r
+    rw [← e] at this
+    simp only
+    rw [blocks_meta_fuel ts.length ((afterLine ts').length + 1) .newline _ (by omega) (by omega)]
+
+/-- every block handed to `BlockParser::new` by the metadata-only scanner is non-empty -/
+theorem C03_meta_blocks_nonempty (f : Nat) (last : TK) (ts : List Tok) :
+    ∀ b ∈ metaBlocks f last ts, b ≠ [] := by
+  induction f generalizing last ts with
+  | zero => intro b hb; simp [metaBlocks] at hb
+  | succ n ih =>
+    intro b hb
+    rw [blocks_meta_succ] at hb
+    cases hs : seekMeta last ts with
+    | none => rw [hs] at hb; simp at hb
+    | some ts' =>
+      rw [hs] at hb
+      obtain ⟨t, r, e, hk, _⟩ := blocks_seek_some last ts ts' hs
+      simp only [List.mem_cons] at hb
+      rcases hb with rfl | hb
+      · rw [e]; simp [lineBody, hk]
+      · exact ih _ _ b hb
+
 /-- the emptiness test on the trimmed block in `next_block` (`return None`) is dead code: a block
     that starts with a non-empty line is never empty after trimming -/
 theorem C03_trimmed_block_never_empty (ts : List Tok) :
